@@ -79,12 +79,14 @@ def run_case(case):
         g.leaves = dict(case["leaves"])
         pool = []  # entries: dict(prog, rel, cols, eng, fp)
 
-        def add(prog, rel, cols, eng):
+        def add(prog, rel, cols, eng, processed=False):
             h = safe_hash(rel)
             c["hash_checks"] = c.get("hash_checks", 0) + 1
             if h[0] != "hash":
                 out["violations"].append({"kind": "factory_built_relation_not_hashable", "detail": f"{model.show(prog)}: hash() raised {h[1]}; tree {short(rel, 200)}"})
-            pool.append({"prog": prog, "rel": rel, "cols": frozenset(cols), "eng": eng, "fp": fingerprint(rel)})
+            # ``processed``: a tree a Processor returned (or one built on such a tree); its transfers
+            # and materializations carry payloads, which are part of what must not change
+            pool.append({"prog": prog, "rel": rel, "cols": frozenset(cols), "eng": eng, "processed": processed, "fp": fingerprint(rel, marker_payloads=processed)})
 
         for name, spec in case["leaves"].items():
             prog = ["leaf", name]
@@ -95,9 +97,9 @@ def run_case(case):
         def sweep(after):
             c["fingerprint_sweeps"] = c.get("fingerprint_sweeps", 0) + 1
             for ent in pool:
-                now = fingerprint(ent["rel"])
+                now = fingerprint(ent["rel"], marker_payloads=ent.get("processed", False))
                 if now != ent["fp"]:
-                    fields = ["repr", "str", "columns", "min_rows", "max_rows", "hash", "engine", "is_locked", "leaf_payloads"]
+                    fields = ["repr", "str", "columns", "min_rows", "max_rows", "hash", "engine", "is_locked", "payloads"]
                     diff = [fields[i] for i, (x, y) in enumerate(zip(ent["fp"], now)) if x != y]
                     out["violations"].append({"kind": "existing_relation_changed", "detail": f"{model.show(ent['prog'])} changed in {diff} after step {after}"})
                     ent["fp"] = now
@@ -120,8 +122,19 @@ def run_case(case):
                     if op == "mat":
                         prog = ["mat", prog[1], f"M{step}"]
                     what = model.show(prog)
-                    rel = b.build(prog)
-                    add(prog, rel, {t.qualified_name for t in rel.columns}, str(rel.engine))
+                    if ent.get("processed"):
+                        # build on the processed OBJECT (the program alone would rebuild an unprocessed tree)
+                        if op in ("mat", "xfer"):
+                            continue
+                        try:
+                            rel = b.apply(prog, ent["rel"])
+                        except Exception as exc:  # noqa: BLE001
+                            raise BuildFailure(prog, exc) from exc
+                        add(prog, rel, {t.qualified_name for t in rel.columns}, str(rel.engine), processed=True)
+                        c["built_on_processed_trees"] = c.get("built_on_processed_trees", 0) + 1
+                    else:
+                        rel = b.build(prog)
+                        add(prog, rel, {t.qualified_name for t in rel.columns}, str(rel.engine))
                 elif kind == "lookalike":
                     # the same call sequence with literals replaced by equal values of another type:
                     # a relation that compares equal to an existing one but must keep its own meaning
@@ -169,7 +182,7 @@ def run_case(case):
                     rel = b.build(prog)
                     add(prog, rel, {t.qualified_name for t in rel.columns}, str(rel.engine))
                 elif kind == "compile":
-                    if not isinstance(ent["rel"].engine, sql.Engine) or any(isinstance(n, (R.Transfer, R.Materialization)) for n in interp.walk(ent["rel"])):
+                    if not isinstance(ent["rel"].engine, sql.Engine) or any(isinstance(n, (R.Transfer, R.Materialization)) and n.payload is None for n in interp.walk(ent["rel"])):
                         continue  # to_executable documents that transfers / materializations need a Processor first
                     t1 = db.text(ent["rel"].engine.to_executable(ent["rel"]))
                     t2 = db.text(ent["rel"].engine.to_executable(ent["rel"]))
@@ -207,7 +220,9 @@ def run_case(case):
                         out["violations"].append({"kind": "later_execution_differs_from_first", "detail": f"{what}: {short(n1, 200)} vs first {short(ent['native_rows'], 200)}"})
                     ent.setdefault("native_rows", tlist(n1))
                 elif kind == "process":
-                    VProcessor(db).process(ent["rel"])
+                    done = VProcessor(db).process(ent["rel"])
+                    if done is not ent["rel"] and not ent.get("processed") and rng.random() < 0.6:
+                        add(ent["prog"], done, ent["cols"], ent["eng"], processed=True)
                 elif kind == "diagnose":
                     R.Diagnostics.run(ent["rel"])
             except BuildFailure as f:
@@ -232,7 +247,7 @@ def run_case(case):
         for name in case["leaves"]:
             b2.memo[repr(["leaf", name])] = b.memo[repr(["leaf", name])]
         for ent in rng.sample(pool, min(len(pool), 12)):
-            if ent["prog"][0] == "leaf":
+            if ent["prog"][0] == "leaf" or ent.get("processed"):
                 continue
             try:
                 again = b2.build(ent["prog"])
